@@ -317,23 +317,23 @@ def _direct_clause(request, outcome):
     result = outcome["ok"]
     if op["op"] == "rc_direct":
         contexts = op.get("contexts") or {}
-        expected = [
+        expected = sorted(
             [k, f"ConditionFulfilledValue.{contexts.get(k, cer['requirement_constraints'][k])}"]
             for k in dict.fromkeys(op["keys"])
-        ]
-        if result != {"!dict": expected}:
+        )
+        if not isinstance(result, dict) or sorted(result.get("!dict", [])) != expected:
             return f"evaluate_conditions({op['keys']}) returned {result}, expected {expected}"
     if op["op"] == "hints_direct":
         pairs = result.get("!dict") if isinstance(result, dict) else None
-        expected_keys = [k for k in dict.fromkeys(op["keys"]) if k in cer["hints"]]
-        if pairs is None or [p[0] for p in pairs] != expected_keys:
+        expected_keys = sorted(k for k in dict.fromkeys(op["keys"]) if k in cer["hints"])
+        if pairs is None or sorted(p[0] for p in pairs) != expected_keys:
             return f"get_hints({op['keys']}) returned keys {pairs}"
         for key, value in pairs:
             if value.get("hint") != f"H{key}@{rid}" or value.get("condition_key") != key:
                 return f"get_hints: key {key} paired with {value}"
     if op["op"] == "fc_direct":
         pairs = result.get("!dict") if isinstance(result, dict) else None
-        if pairs is None or [p[0] for p in pairs] != list(dict.fromkeys(op["keys"])):
+        if pairs is None or sorted(p[0] for p in pairs) != sorted(dict.fromkeys(op["keys"])):
             return f"evaluate_format_constraints({op['keys']}) returned keys {pairs}"
         for key, value in pairs:
             entry = cer["format_constraints"][key]
